@@ -353,6 +353,12 @@ func Read_str(str string, cursor *Position, placeholderValues *HashMap, ns ...En
 		matches := moduleNamePrefixRE.FindStringSubmatch(str)
 		if matches != nil {
 			cursor = NewCursorFile(matches[1])
+			// the header line is not part of the module: its first line is the one after it
+			if nl := strings.IndexByte(str, '\n'); nl >= 0 {
+				str = str[nl+1:]
+			} else {
+				str = ""
+			}
 		}
 	}
 	tokens, err := tokenize(str, cursor)
